@@ -24,6 +24,11 @@ CHECKS = {
                 text="Bursts of 1-8 requests with gaps around the delay, busy and idle pipelines, cancels inside the burst, 4-client stress bursts; plus logically fired delays in conformance histories.", ref="4 C07"),
     "C08": dict(level="exploration", tech="runtime monitoring: driver-chosen task outcomes as ground truth, task-level simulation vs tasks inside the monitored runner after every step, predicted verdict vs terminal ReadJob snapshot and /job/detail JSON",
                 text="Failure/allow_failure/non-exit-error assignments x both fail-fast settings x release orders x external cancels; verdict soundness (plain success only if all tasks succeeded or failed with allow_failure) is checked on every finished job.", ref="4 C08"),
+    "C09": dict(level="fault_enumeration", tech="fault injection with strace: SIGKILL / ENOSPC / EIO / EMFILE injected at EVERY openat/write/close/rename system call of the saving thread of a victim process (counted in a dry run), random-instant SIGKILLs, inspection from a fresh process; in-process reader-vs-writer monitor",
+                text="Every system-call boundary of a multi-save run of the real JsonDataStore is a crash point and an I/O fault point; the directory is then loaded by a fresh process and must show one complete, allowed generation.", ref="4 C09",
+                note="Trusted base: strace's injection, kernel rename atomicity. Power loss is outside the statement (no fsync in the code)."),
+    "C10": dict(level="fault_enumeration", tech="runtime monitoring over save points: recording wrapper around the real JsonDataStore copies every persisted snapshot of a conformance history; a fresh runner is started on each copy and compared field by field (decoded values) with the live runner; prepared store files for states that exist only between two runner steps",
+                text="Every persisted snapshot of every history (explicit saves at every position + persist loop) is a restart point; arbitrary JSON payloads incl. floats with 17 significant digits.", ref="4 C10"),
     "C13": dict(level="exploration", tech="Go race detector (-race, implies checkptr) over measured-coverage stress histories; report blocks counted in GORACE log files and de-duplicated by frame pair",
                 text="All exported operations plus job/timer/persist goroutines in flight at once, with retention so that saves delete, monitored and real task runner; the run is inconclusive unless every lock-conflicting operation pair overlapped at least 20 times.", ref="4 C13",
                 note="Trusted base: the Go race detector and runtime. Only races on paths the workload reaches are seen; the evidence file lists the measured overlap matrix."),
